@@ -422,7 +422,9 @@ def behaviour_corpus(chk):
 
 
 USER_FLAGS = {'userflags': ['-O2', '-DQT_USE_QSTRINGBUILDER', '-DQT_NO_KEYWORDS', '-DQT_NO_CAST_TO_ASCII', '-DQT_STRICT_ITERATORS'],
-              'O0': ['-O0'], 'stringbuilder': ['-O2', '-DQT_USE_QSTRINGBUILDER']}
+              'O0': ['-O0'], 'stringbuilder': ['-O2', '-DQT_USE_QSTRINGBUILDER'],
+              # what qmake CONFIG+=release / CMake outside Debug add to the USER's translation unit: Q_ASSERT compiled out of the header's code
+              'nodebug': ['-O1', '-DQT_NO_DEBUG']}
 
 
 def build_user_variant(name, tag):
@@ -469,9 +471,17 @@ def same_name_internal_definitions():
     return {b: w for b, w in sorted(where.items()) if len(w) > 1}
 
 
+REL_HARNESSES = ('header_exit',)       # also built against the library as CMake builds it (build/libqtlogger_rel.a: -DQT_NO_DEBUG in the library only)
+
+
+def rel_exe(name):
+    return os.path.join(vlib.BUILD, 'h_' + name + '.rel')
+
+
 def build_variants(names):
-    """library and header-only builds of the named harnesses, in one make invocation (same rules as vlib.build_harness)"""
-    tg = [os.path.join(vlib.BUILD, 'h_' + n + v) for n in names for v in ('', '.hdr')]
+    """library and header-only builds of the named harnesses, in one make invocation (same rules as vlib.build_harness);
+    for REL_HARNESSES also h_<name>.rel (application object first, build/libqtlogger_rel.a after it)"""
+    tg = [os.path.join(vlib.BUILD, 'h_' + n + v) for n in names for v in ('', '.hdr') + (('.rel',) if n in REL_HARNESSES else ())]
     with vlib.Lock('harness'):
         rc, out, err = vlib.sh(['make', '-j%d' % min(8, vlib.NCPU), '-f', os.path.join(vlib.VERIF, 'harness', 'Makefile'),
                                 'REPO=' + vlib.REPO, 'BUILD=' + vlib.BUILD] + tg, cwd=os.path.join(vlib.VERIF, 'harness'), timeout=900)
@@ -860,7 +870,11 @@ def conditional_leg(chk, repo):
 # ---- whole-process behaviour: the same PROGRAM (harness/h_header_exit.cpp) built against the library and header-only;
 #      compared after the process ended: exit status / signal, stdout, stderr, the files it left ------------------------
 N_TEMPLATES = 8          # kTemplates in harness/h_header_exit.cpp
-EARLY_OPS = ('fs', 'rs', 'cfg', 'stf', 'log', 'clog', 'flush', 'own', 'pat', 'pipe', 'restore')
+EARLY_OPS = ('fs', 'rs', 'cfg', 'stf', 'log', 'clog', 'flush', 'own', 'ownr', 'edge', 'pat', 'pipe', 'restore')
+# boundary ARGUMENTS of the public constructors / configure() / sendToFile(): maxFileCount <= 0 is documented as "keep every rotated
+# file", maxFileSize <= 0 as "no limit", the empty path as "no file" (template -1), pattern 3 is the empty pattern
+MAX_SIZES = (-1, 0, 1, 30, 60, 200, 100000)
+MAX_COUNTS = (-1, 0, 1, 2, 3)
 
 
 def prog_text(p):
@@ -877,15 +891,21 @@ def op_kinds(ops):
 
 
 def random_op(rng, early):
-    k = rng.choice(['fs', 'fs', 'rs', 'cfg', 'cfg', 'stf', 'log', 'log', 'log', 'clog', 'flush', 'own', 'pat', 'pipe', 'pipe', 'restore'] + ([] if early else ['app', 'app']))
-    t = rng.randrange(N_TEMPLATES)
+    k = rng.choice(['fs', 'fs', 'rs', 'rs', 'cfg', 'cfg', 'stf', 'log', 'log', 'log', 'clog', 'flush', 'own', 'ownr', 'edge', 'pat', 'pipe', 'pipe', 'restore']
+                   + ([] if early else ['app', 'app']))
+    t = rng.randrange(N_TEMPLATES) if rng.random() >= 0.07 else -1
     if k == 'fs':
         return 'fs:%d:%d:%d' % (t, rng.choice([0, 1, 1, 2, 3, 5]), rng.choice([0, 0, 1, 2]))
     if k == 'rs':
-        return 'rs:%d:%d:%d:%d:%d' % (t, rng.choice([0, 30, 60, 200, 100000]), rng.choice([0, 2, 3]), rng.choice([0, 1, 3, 8]), rng.choice([0, 0, 1, 2]))
+        return 'rs:%d:%d:%d:%d:%d' % (t, rng.choice(MAX_SIZES), rng.choice(MAX_COUNTS), rng.choice([0, 1, 3, 8]), rng.choice([0, 0, 1, 2]))
     if k == 'cfg':
         big = rng.random() < 0.5
-        return 'cfg:%d:%d:%d:%d' % (t, 0 if big else rng.choice([80, 200, 100000]), rng.choice([0, 2, 3]), 0 if big else rng.choice([0, 0, 1, 2]))
+        return 'cfg:%d:%d:%d:%d' % (t, rng.choice([0, 0, 0, -1]) if big else rng.choice([1, 80, 200, 100000]), rng.choice(MAX_COUNTS),
+                                    rng.choice([0, 0, 0, 1]) if big else rng.choice([0, 0, 1, 2]))
+    if k == 'ownr':
+        return 'ownr:%d:%d:%d:%d:%d' % (t, rng.choice(MAX_SIZES), rng.choice(MAX_COUNTS), rng.choice([0, 0, 1, 2]), rng.choice([0, 1, 3, 6]))
+    if k == 'edge':
+        return 'edge:%d:%d:%d' % (rng.randrange(4), t, rng.choice([0, 1, 3]))
     if k == 'stf':
         return 'stf:%d' % t
     if k in ('log', 'clog'):
@@ -893,7 +913,7 @@ def random_op(rng, early):
     if k == 'own':
         return 'own:%d:%d' % (t, rng.choice([0, 1, 3]))
     if k == 'pat':
-        return 'pat:%d' % rng.randrange(3)
+        return 'pat:%d' % rng.randrange(4)
     if k == 'pipe':
         return 'pipe:%d:%d:%d' % (rng.randrange(4), t, rng.choice([1, 4, 7, 12]))
     return k
@@ -915,7 +935,12 @@ def exit_programs(chk, n_random):
             'pipe:0:0:7,pipe:1:4:7/pipe:2:0:7,pipe:3:4:7/ret:0',      # filters and formatters used before main()
             'own:0:2/own:4:1/ret:0', 'pat:0,pat:1/pat:2/ret:7',
             '/stf:0,log:2/fatal', '/app,cfg:0:0:0:0,log:1/fatal', '/stf:0,log:3/qexit:2', 'stf:0,log:1,eexit:4//ret:0',
-            '/stf:0,log:1,restore,log:1/ret:0', '/app,cfg:5:0:0:0,log:1,flush,log:1/ret:0']
+            '/stf:0,log:1,restore,log:1/ret:0', '/app,cfg:5:0:0:0,log:1,flush,log:1/ret:0',
+            # boundary arguments: negative / zero / one for the rotation limits, the empty path, the empty pattern, null handler pointers
+            'rs:0:0:-1:2:0//ret:0', '/rs:0:1:-1:3:1,rs:1:-1:0:2:2/ret:0', '/rs:0:30:1:4:1,rs:4:30:2:4:0/ret:0',
+            '/app,cfg:0:80:-1:0,log:9/ret:0', '/cfg:0:1:1:0,log:5/exit:0', '/cfg:0:-1:2:1,log:3/ret:0', '/cfg:-1:0:0:0,log:2/ret:0', 'cfg:-1:80:-1:1/log:1/exit:0',
+            '/ownr:0:1:-1:0:4,ownr:0:-1:-1:1:2,ownr:-1:1:1:0:1/ret:0', '/edge:0:0:3,edge:1:0:2/ret:0', 'edge:2:0:3,pat:3/edge:3:1:2/ret:0',
+            '/fs:-1:1:0,rs:-1:1:1:1:0/ret:0', '/stf:-1,log:2/ret:0', 'own:-1:2//ret:0']
     progs = []
     cdir = os.path.join(vlib.VERIF, 'corpus', 'C20')
     for fn in sorted(os.listdir(cdir)) if os.path.isdir(cdir) else []:
@@ -1002,7 +1027,7 @@ def simplify_ops(prog, differs):
     smaller = {'log': [(1, '1')], 'clog': [(0, 'log'), (1, '1')], 'stf': [(1, '0')], 'own': [(1, '0'), (2, '0'), (2, '1')],
                'cfg': [(1, '0'), (4, '0'), (2, '0'), (3, '0')], 'fs': [(1, '0'), (2, '0'), (2, '1'), (3, '2'), (3, '1')],
                'rs': [(1, '0'), (2, '0'), (3, '0'), (4, '0'), (4, '1'), (5, '2'), (5, '1')], 'pat': [(1, '0')],
-               'pipe': [(2, '0'), (3, '1'), (3, '4')]}
+               'pipe': [(2, '0'), (3, '1'), (3, '4')], 'ownr': [(1, '0'), (4, '0'), (2, '0'), (3, '0'), (5, '0'), (5, '1')], 'edge': [(2, '0'), (3, '0'), (3, '1')]}
     for ph in ('early', 'main'):
         for i in range(len(cur[ph])):
             for idx, val in smaller.get(cur[ph][i].split(':')[0], []):
@@ -1043,8 +1068,14 @@ def process_leg(chk):
                  {'kind': 'header-only-build-fails', 'log': str(e)[-1500:]}, kind='header-only-build-fails')
         return 0
     thorough = chk.tier == 'thorough'
+    # THREE builds of every program at least: the library as the project's CMake build produces it (QT_NO_DEBUG in the library's
+    # translation units only - Qt5::Core adds it for every configuration but Debug), header-only with default user flags (no
+    # QT_NO_DEBUG: the assertions of the header's code are live) and header-only with -DQT_NO_DEBUG.  The library WITHOUT
+    # QT_NO_DEBUG (a CMake Debug configuration, exes[0]) only qualifies a difference (field same_as_library_without_QT_NO_DEBUG).
+    lib_debug = exes[0]
+    exes = (rel_exe('header_exit'), exes[1])
     variants = [('header-only', exes[1])]
-    for t in ['userflags'] + (['O0'] if thorough else []):
+    for t in ['nodebug', 'userflags'] + (['O0'] if thorough else []):
         exe, err = build_user_variant('header_exit', t)
         if exe:
             variants.append(('header-only ' + ' '.join(USER_FLAGS[t]), exe))
@@ -1081,6 +1112,7 @@ def process_leg(chk):
             oa, ob = run_program(exes[0], small), run_program(exe, small)
             if not obs_diff(oa, ob):      # not reproducible: report the original program, as found
                 small, oa, ob = p, a, b
+            od = run_program(lib_debug, small)
             cls = (op_kinds(small['early']), op_kinds(small['main']), small['end'].split(':')[0], oa['status'], ob['status'], ','.join(obs_diff(oa, ob)))
             if cls in reported:
                 continue
@@ -1088,7 +1120,11 @@ def process_leg(chk):
             rep = {'kind': 'header-only-process-behaviour-differs', 'program': prog_text(small), 'build': label,
                    'early_op_kinds': cls[0], 'main_op_kinds': cls[1], 'ending': cls[2], 'library_status': cls[3], 'header_only_status': cls[4],
                    'differs_in': cls[5], 'library': describe_obs(oa), 'header_only': describe_obs(ob), 'found_as': prog_text(p),
-                   'how': "C20_DIR=$(mktemp -d) C20_PROG='%s' build/h_header_exit   vs   build/%s   (program syntax: harness/h_header_exit.cpp)"
+                   'library_build': 'libqtlogger as CMake builds it (-DQT_NO_DEBUG in the library only), application object first on the link line',
+                   # the library of a CMake Debug configuration (no QT_NO_DEBUG anywhere): tells a QT_NO_DEBUG-dependent difference apart
+                   'library_without_QT_NO_DEBUG': {'status': od['status'], 'differs_from_this_header_only_build_in': obs_diff(od, ob)},
+                   'header_only_builds_that_differ': [l for vj, (l, _) in enumerate(variants) if obs_diff(a, res[(pi, vj)])],
+                   'how': "C20_DIR=$(mktemp -d) C20_PROG='%s' build/h_header_exit.rel   vs   build/%s   (program syntax: harness/h_header_exit.cpp)"
                           % (prog_text(small), os.path.basename(exe))}
             chk.fail('the %s build of the program %r behaves differently from the library build of the same program (%s): library: %s, %s; header-only: %s, %s'
                      % (label, prog_text(small), cls[5], oa['status'], ['%s: %d lines' % (n, c.count('\n')) for n, c in oa['files'][:4]],
@@ -1097,7 +1133,23 @@ def process_leg(chk):
     hist['program_runs_compared'] = len(progs) * len(variants)
     hist['distinct_programs'] = len({prog_text(p) for p in progs})
     hist['differences'] = n_diff
-    hist['builds'] = ['library'] + [l for l, _ in variants]
+    hist['builds'] = ['library as CMake builds it (QT_NO_DEBUG in the library only)'] + [l for l, _ in variants]
+    bnd = {'max_count': {}, 'max_size': {}, 'empty_path_ops': 0, 'empty_pattern_ops': 0, 'null_pointer_ops': 0}
+    for p in progs:
+        for o in p['early'] + p['main']:
+            f = o.split(':')
+            if f[0] in ('rs', 'cfg', 'ownr'):
+                bnd['max_size'][f[2]] = bnd['max_size'].get(f[2], 0) + 1
+                bnd['max_count'][f[3]] = bnd['max_count'].get(f[3], 0) + 1
+            if f[0] in ('fs', 'rs', 'cfg', 'stf', 'own', 'ownr') and f[1] == '-1':
+                bnd['empty_path_ops'] += 1
+            if f[0] == 'edge':
+                bnd['empty_path_ops'] += 1 if f[1] in ('1', '3') or f[2] == '-1' else 0
+                bnd['empty_pattern_ops'] += 1 if f[1] in ('2', '3') else 0
+                bnd['null_pointer_ops'] += 1 if f[1] in ('0', '1', '3') else 0
+            if o == 'pat:3':
+                bnd['empty_pattern_ops'] += 1
+    hist['boundary_arguments'] = bnd
     chk.cov['whole_process_programs'] = hist
     chk.samples.append({'whole_process_program': prog_text(progs[0]), 'library': describe_obs(res[(0, -1)]), 'header_only_equal': not obs_diff(res[(0, -1)], res[(0, 0)])})
     return len(progs) * len(variants)
@@ -1529,6 +1581,7 @@ def replay(path):
     rr = r['replay'] if isinstance(r['replay'], dict) else {}
     if rr.get('kind') == 'header-only-process-behaviour-differs' and rr.get('program'):
         exes = build_variants(['header_exit'])['header_exit']
+        exes = (rel_exe('header_exit'), exes[1], exes[0])
         hdr = exes[1]
         for t, fl in USER_FLAGS.items():
             if rr.get('build', '').endswith(' '.join(fl)):
@@ -1536,9 +1589,10 @@ def replay(path):
         prog = prog_of_text(rr['program'])
         a, b = run_program(exes[0], prog), run_program(hdr, prog)
         print('program', rr['program'], '(syntax: harness/h_header_exit.cpp)')
-        print('library build     :', json.dumps(describe_obs(a), indent=1))
-        print('header-only build :', json.dumps(describe_obs(b), indent=1))
+        print('library build (as CMake builds it: -DQT_NO_DEBUG in the library only):', json.dumps(describe_obs(a), indent=1))
+        print('header-only build (%s):' % (rr.get('build') or 'header-only'), json.dumps(describe_obs(b), indent=1))
         print('differs in:', obs_diff(a, b) or 'nothing (not reproduced)')
+        print('library build without QT_NO_DEBUG (CMake Debug configuration) differs from that header-only build in:', obs_diff(run_program(exes[2], prog), b) or 'nothing')
         return 0
     if isinstance(r['replay'], list) and any(isinstance(x, dict) and str(x.get('kind', '')).startswith(('conditional-', 'cond-', 'known-conditional')) for x in r['replay']):
         chk = vlib.Check('C20', level='translation_validation')
